@@ -31,7 +31,8 @@ SPEC = dict(
                 "of element types not modelled); well-formedness (duplicate-free VecSet/ArraySet/VecMap/ArrayMap inputs) is the "
                 "documented precondition of those backings."),
     trusted_base=["std HashSet/BTreeSet/HashMap/BTreeMap extend/insert/get modelled as list operations; outputs sorted before comparison",
-                  "cc_traits blanket impls (Len/Get/Iter) for the std containers, exercised by correspondence only"],
+                  "cc_traits blanket impls (Len/Get/Iter) for the std containers, exercised by correspondence only",
+                  "lean/HvLat/translate_tables.py: our translator from Rust match arms / IsTop-IsBot-Default impl bodies to the Lean functions of Gen/Tables.lean (unknown syntax = broken tie)"],
     assumptions=["set/map backings hold no duplicate keys (precondition stated in collections.rs for the list-backed ones)",
                  "element/key types are u32; numeric Max/Min over unsigned and signed integers and bool (every type of the impls_numeric! list and char are instantiated; Max<()>/Min<()> - one-point, no Default - are not)"],
 )
